@@ -89,22 +89,18 @@ func (d *deepCopier) deepCopyIface(in, out reflect.Value) {
 	}
 	inElem := in.Elem()
 	switch inElem.Kind() {
-	case reflect.Ptr:
-		newVal := reflect.New(inElem.Type().Elem())
+	case reflect.Ptr, reflect.Map:
+		// copy through the regular pointer/map handlers (into an
+		// addressable temporary) so reference cycles and sharing that
+		// pass through interface values go through ptrMap/mapMap.
+		newVal := reflect.New(inElem.Type()).Elem()
+		d.deepCopy(inElem, newVal)
 		out.Set(newVal)
-		d.deepCopy(inElem.Elem(), newVal.Elem())
 		return
 	case reflect.Struct:
 		newVal := reflect.New(inElem.Type())
 		d.deepCopy(inElem, newVal.Elem())
 		out.Set(newVal.Elem())
-		return
-	case reflect.Map:
-		if inElem.IsNil() {
-			return
-		}
-		out.Set(reflect.MakeMapWithSize(inElem.Type(), inElem.Len()))
-		d.deepCopy(inElem, out.Elem())
 		return
 	case reflect.Slice:
 		if inElem.IsNil() {
